@@ -95,6 +95,9 @@ def gen_meta(rng, k):
 def gen_rules(rng):
     """returns (rule_files, decls)"""
     nfiles = rng.choice([1, 1, 1, 2, 2, 3])
+    # every rule decidable without looking at the strings: without -s/-L/-X the library may then skip the
+    # scan, with one of them it must not (compute_full_matches)
+    noscan = rng.chance(1, 6)
     files, decls = [], []
     used_ns = set()
     rule_no = 0
@@ -146,6 +149,12 @@ def gen_rules(rng):
                 cond = rng.choice(["true", "true", "false", "filesize > 10", "filesize == 0", "filesize < 100"])
                 if names_here and rng.chance(1, 3):
                     cond = rng.choice(["%s", "not %s"]) % rng.choice(names_here)
+            if noscan and not glob:
+                if strings:
+                    cond = rng.choice(["any of them or filesize >= 0", "$%s or true" % strings[0][0],
+                                       "filesize < 100000000 or #%s > 1" % strings[0][0], "true or all of them"])
+                else:
+                    cond = rng.choice(["true", "filesize >= 0", "false"])
             # every string must be used
             if strings and "them" not in cond:
                 used = [s[0] for s in strings if ("$" + s[0]) in cond or ("#" + s[0]) in cond]
@@ -622,9 +631,6 @@ class C18(Prop):
                          "callback_events:CallbackEvents::RULE_MATCH", "include_not_matched_rules:false"]:
                 if want not in blk:
                     probs.append("ScanParams::default changed: expected `%s`" % want)
-            m = open(os.path.join(core.REPO, "boreal-cli/src/main.rs")).read()
-            if "".join("bounded(nb_threads * 5)".split()) not in "".join(m.split()):
-                probs.append("channel capacity is no longer nb_threads * 5 (Model/Cli.v channel_capacity)")
         except Exception as e:
             probs.append("cannot read defaults: %r" % (e,))
         return probs
